@@ -345,7 +345,8 @@ class TU:
             return f['name']
         b = self.fn_base(f)
         ov = self.overload_table().get(b, ())
-        if len(ov) > 1 or (f.get('isImplicit') and len(ov) >= 1):
+        if len(ov) > 1 or ((f.get('isImplicit') or f.get('explicitlyDefaulted')) and len(ov) >= 1 and f['id'] not in ov) \
+                or self.implicit_siblings(f) > 1:
             def psig(o):
                 return '_'.join(sanitize(p['type']['qualType']) for p in self.params(o)) or 'void'
             def is_const(o):
@@ -355,6 +356,24 @@ class TU:
                 sig += '_const'
             b = b + '__' + sig
         return b
+
+    def implicit_siblings(self, f):
+        """number of implicitly defined constructors WITH a synthesised body in f's class (they are not in the overload table;
+        two of them -- default and move -- would otherwise get the same C name)"""
+        if f.get('kind') != 'CXXConstructorDecl' or not f.get('isImplicit'):
+            return 0
+        cache = self.__dict__.setdefault('_impl_sib', {})
+        rec = self.class_of(f)
+        if rec is None:
+            return 0
+        k = rec.get('id')
+        if k not in cache:
+            n = 0
+            for c in rec.get('inner', ()):
+                if c.get('kind') == 'CXXConstructorDecl' and c.get('isImplicit') and self.has_body(c):
+                    n += 1
+            cache[k] = n
+        return cache[k]
 
     def find_functions(self, selector):
         """selector: qualified name suffix (C++ spelling, '::'), optionally '@' + signature substring.
